@@ -117,6 +117,10 @@ pub fn silence_panics() {
                 format!("{krate}/src/{short}")
             })
             .unwrap_or_default();
+        if info.location().map(|l| l.file().starts_with("src/")).unwrap_or(false) {
+            // a bug of the harness itself, not of the code under test: say where
+            eprintln!("harness panic: {info}");
+        }
         LAST_PANIC_AT.with(|c| *c.borrow_mut() = at);
     }));
 }
